@@ -161,6 +161,23 @@ fn present(x: &X) -> X {
     X::ok(X::opt(Some(X::L(vec![X::L(entries), X::n(data_start), X::b(&body)]))))
 }
 
+/// input (L (L word...) crlf rest): the line rendered from its words, then as `present`
+fn present_line(x: &X) -> X {
+    let l = match x.as_l() { Some(l) if l.len() == 3 => l, _ => return X::bad() };
+    let (ws, crlf, rest) = match (l[0].as_l(), l[1].as_bool(), l[2].as_b()) { (Some(w), Some(c), Some(r)) => (w, c, r), _ => return X::bad() };
+    let mut data = b"!> ".to_vec();
+    for (i, w) in ws.iter().enumerate() {
+        let w = match w.as_b() { Some(w) => w, None => return X::bad() };
+        if i > 0 {
+            data.push(b' ');
+        }
+        data.extend_from_slice(w);
+    }
+    data.extend_from_slice(if crlf { &b"\r\n"[..] } else { &b"\n"[..] });
+    data.extend_from_slice(rest);
+    present(&X::b(&data))
+}
+
 fn empty_args(_x: &X) -> X {
     let a = PresentArguments::empty();
     let first = a.iter().next();
@@ -172,6 +189,7 @@ pub fn dispatch(comp: &str, x: &X) -> Option<X> {
         "reg.ops" | "reg.ops_v0" => registry(x),
         "std.bsearch" => bsearch(x),
         "present.parse" | "present.parse_v0" => present(x),
+        "present.line" => present_line(x),
         "present.empty_args" | "present.empty_args_v0" => empty_args(x),
         _ => return None,
     })
